@@ -4933,28 +4933,11 @@ bool SoPlexBase<R>::getBasisInverseColReal(int c, R* coef, int* inds, int* ninds
          {
             if(unscale && _solver.isScaled())
             {
-               int scaleExp = -_scaler->getRowScaleExp(index);
+               // unit vector of row c in the scaled space (see getBasisInverseTimesVecReal)
+               int scaleExp = _scaler->getRowScaleExp(c);
                DSVectorBase<R> rhs(1);
-               rhs.add(index, spxLdexp(1.0, scaleExp));
+               rhs.add(index, spxLdexp(R(1.0), scaleExp));
                _solver.basis().coSolve(x, rhs);
-               x.setup();
-               int size = x.size();
-
-               // apply scaling based on \tilde{C}
-               for(int i = 0; i < size; i++)
-               {
-                  int idx = bind[x.index(i)];
-
-                  if(idx < 0)
-                  {
-                     idx = -idx - 1;
-                     scaleExp = _scaler->getRowScaleExp(idx);
-                  }
-                  else
-                     scaleExp = - _scaler->getColScaleExp(idx);
-
-                  spxLdexp(x.value(i), scaleExp);
-               }
             }
             else
             {
@@ -4982,17 +4965,11 @@ bool SoPlexBase<R>::getBasisInverseColReal(int c, R* coef, int* inds, int* ninds
                assert(idx < numRows());
                assert(!_solver.isRowBasic(idx));
 
-               if(unscale && _solver.isScaled())
-               {
-                  DSVectorBase<R> r_unscaled(numCols());
-                  _solver.getRowVectorUnscaled(idx, r_unscaled);
-                  coef[i] = - (r_unscaled * x);
-               }
-               else
-                  coef[i] = - (_solver.rowVector(idx) * x);
+               // x lives in the scaled space: take the scaled row and unscale the activity of this (basic) slack row
+               coef[i] = - (_solver.rowVector(idx) * x);
 
                if(unscale && _solver.isScaled())
-                  coef[i] = spxLdexp(coef[i], _scaler->getRowScaleExp(idx));
+                  coef[i] = spxLdexp(coef[i], -_scaler->getRowScaleExp(idx));
             }
             else
             {
